@@ -64,6 +64,9 @@ def run(tier):
     # oracle A + D on the hooked build
     def seen(p, m, res):
         v = m["view"][0]
+        if v["res"] == "compile_error":
+            ck.count("programs_not_compiling")
+            return
         ck.note_nontrivial(p["steps"][0][1])
         ck.count("expected_error_outcomes", sum(1 for t in v["out"] if t.endswith("Error>")))
 
@@ -92,6 +95,8 @@ def run(tier):
                 if st.get("res") == "err" and not st.get("msgs"):
                     ck.violation("ErrorWithoutMessage", {"program": p["name"], "config": cfg, "steps": p["steps"], "modules": p["mods"],
                                                          "what": "interpret returned an Err with no message"})
+    if ck.coverage.get("programs_not_compiling", 0) > len(plist) // 50:
+        ck.inconclusive.append("%d of %d hostile programs do not compile" % (ck.coverage["programs_not_compiling"], len(plist)))
     common.replay_known(ck, opts={"gc": "never"})
     ck.sample({"sweep_program_tail": sweep[0][1][-600:]})
     return ck.finish("built-in sweep (%d calls: %d method names x %d pool receivers x arities 0-3), operator/statement sweep "
